@@ -1,7 +1,283 @@
-/- Props/C16.lean — placeholder while the proofs are being assembled. -/
+/-
+  Props/C16.lean — property theorems for C16 (oneshot()/as_dict() change speed, never answers;
+  safe across threads). Helper lemmas: Proofs/C16Seq.lean (sequential refinement) and
+  Proofs/C16Conc.lean (invariant of the small-step model).
+
+  `cfg`, `ccfgFront`, `ccfgProc` are built from Generated/C16.lean, which the translator rewrites
+  from /repo's source on every run. `cfg_good` / `ccfg_good` are the proof obligations that break
+  when a decorator is dropped, an activate/deactivate list changes, the nesting test or the
+  `finally` disappears, as_dict's validation or exception policy changes, or the wrapper's
+  case-3 store goes back to re-loading `self._cache`.
+-/
+import PsutilModel.Proofs.C16Seq
+import PsutilModel.Proofs.C16Conc
 import PsutilModel.Model.C16Gen
 namespace Psutil.C16
+open Spec
 
+/- =========================================================================================
+   Part 1 — sequential histories
+   ========================================================================================= -/
+
+theorem cfg_good : cfg.Good := by decide
+
+/-- every row of the translator's method table was understood (no unknown file / memo function) -/
 theorem cfg_meths_complete : cfg.meths.length = Gen.C16.meths.length := by decide
 
+/-- **value at first read.** For EVERY history (enter, exit normally or by exception, nested
+    blocks, calls, content changes, EACCES, zombie, gone, as_dict anywhere) the transcription of
+    memoize_when_activated/oneshot/as_dict answers exactly what the specification answers, where
+    the specification freezes, per outermost block, the content delivered by the first
+    successful read of each block-cached source (and the first result of the four cached front-end
+    methods) and reads everything else from the world at the instant of the call. Read counts
+    agree as well. -/
+theorem C16_value_at_first_read (ops : List Op) :
+    outs cfg Sys.init ops = outsS cfg SSt.init World.init ops ∧
+    (runAll cfg Sys.init ops).st.reads = (runS cfg SSt.init World.init ops).1.reads :=
+  ⟨refines cfg cfg_good ops, refines_reads cfg cfg_good ops⟩
+
+/-- in the specification a frozen content is never overwritten while the block stays open … -/
+theorem C16_frozen_never_overwritten (ops : List Op) (d : Nat) (hd : 1 ≤ d) (ss : SSt) (w : World)
+    (s : Src) (c0 : Content) (hdep : ss.depth = d) (hf : ss.frozenSrc s = some c0)
+    (hin : staysIn d ops = true) : (runS cfg ss w ops).1.frozenSrc s = some c0 :=
+  frozen_stable cfg ops d hd ss w s c0 hdep hf hin
+
+/-- … and it is the world's content at the very read that froze it (a failed read freezes nothing) -/
+theorem C16_frozen_is_first_read (ss : SSt) (w : World) (x s : Src) (c0 : Content)
+    (h0 : ss.frozenSrc s = none) (h1 : (readSrc ss w x).1.frozenSrc s = some c0) :
+    x = s ∧ w.read s = .ok c0 ∧ (readSrc ss w x).2 = .ok c0 :=
+  frozen_from_world ss w x s c0 h0 h1
+
+/-- no AttributeError ever escapes `oneshot().__exit__` (the repeated `del` is swallowed) -/
+theorem C16_exit_never_raises (ops : List Op) : ∀ o ∈ outs cfg Sys.init ops, o ≠ Out.attributeError :=
+  no_attributeError cfg cfg_good ops
+
+/-- **read at most once.** Inside one outermost block — whatever happens in it: nested blocks,
+    as_dict, content changes, failing reads, zombie/gone transitions — each of stat, status and
+    smaps is successfully read by the object's read routines at most once. -/
+theorem C16_read_at_most_once (pre blk : List Op) (s : Src) (hs : blockCached s = true)
+    (hout : (runAll cfg Sys.init pre).st.stack = []) (hin : staysIn 1 blk = true) :
+    (runAll cfg Sys.init (pre ++ Op.enter :: blk)).st.reads s ≤ (runAll cfg Sys.init pre).st.reads s + 1 :=
+  read_at_most_once cfg cfg_good pre blk s hs hout hin
+
+example : staysIn 1 [.call 0, .enter, .setVer .stat 9, .call 1, .exit true, .call 0] = true := by decide
+example : blockCached .stat = true ∧ blockCached .status = true ∧ blockCached .smaps = true := by decide
+
+/-- the literal, file-level reading ("/proc/<pid>/stat is OPENED at most once per block") -/
+def C16_stat_opened_at_most_once_Literal : Prop :=
+  ∀ (pre blk : List Op), (runAll cfg Sys.init pre).st.stack = [] → staysIn 1 blk = true →
+    let a := (runAll cfg Sys.init pre).st
+    let b := (runAll cfg Sys.init (pre ++ Op.enter :: blk)).st
+    (b.reads .stat + b.probes) ≤ (a.reads .stat + a.probes) + 1
+
+/-- … is false of the code: probes that must be fresh bypass the cache. `with p.oneshot():
+    p.name(); p.ppid()` opens stat twice (ppid()'s PID-reuse check builds a fresh Process(pid)). -/
+theorem C16_probes_bypass_cache : ¬ C16_stat_opened_at_most_once_Literal := by
+  intro h
+  have := h [] [.call 0, .call 1] rfl (by decide)
+  revert this
+  decide
+
+/-- **fresh after exit.** Outside every block a call's result depends on the current world only … -/
+theorem C16_fresh_after_exit (ops : List Op) (m : Meth)
+    (hout : (runAll cfg Sys.init ops).st.stack = []) :
+    (call cfg m (runAll cfg Sys.init ops).st (runAll cfg Sys.init ops).w).2 =
+      (bodyS m SSt.init (runAll cfg Sys.init ops).w).2 :=
+  fresh_after_exit cfg cfg_good ops m hout
+
+/-- … because leaving the outermost level drops both caches, normally (`b = false`) and by an
+    exception propagating out of the body (`b = true`) alike. -/
+theorem C16_fresh_after_exit_both_ways (ops : List Op) (b : Bool)
+    (h1 : (runAll cfg Sys.init ops).st.stack = [true]) :
+    let st' := (exit cfg (runAll cfg Sys.init ops).st b).1
+    st'.cache = none ∧ st'.pcache = none ∧ st'.stack = [] :=
+  exit_outermost_clears cfg cfg_good ops b h1
+
+example : (runAll cfg Sys.init [.enter, .call 0]).st.stack = [true] := by decide
+
+/-- **nesting changes nothing.** Entering and leaving a nested block leaves caches, stack and
+    counters exactly as they were. -/
+theorem C16_nested_noop (ops : List Op) (b : Bool) (hin : (runAll cfg Sys.init ops).st.stack ≠ []) :
+    exit cfg (enter cfg (runAll cfg Sys.init ops).st) b = ((runAll cfg Sys.init ops).st, true) :=
+  nested_noop cfg cfg_good ops b hin
+
+/-- **as_dict validates first.** A non-collection → TypeError, an unknown name → ValueError, and
+    the state (caches, read counters, probe counter) is untouched: nothing was queried. -/
+theorem C16_as_dict_validates_first (a : AsDictArg) (st : St) (w : World) :
+    (a.kind = .nonCollection → asDict cfg a st w = (st, .typeError)) ∧
+    (a.kind = .names → invalidNames cfg a = true → asDict cfg a st w = (st, .valueError)) :=
+  ⟨asDict_typeError cfg cfg_good a st w, asDict_valueError cfg cfg_good a st w⟩
+
+/-- **as_dict keys.** Explicit request: exactly the requested names. `None` or an empty
+    collection: the valid names, all of them unless one raised NotImplementedError. -/
+theorem C16_as_dict_keys (a : AsDictArg) (st st' : St) (w : World) (kvs : List (String × DVal))
+    (h : asDict cfg a st w = (st', .dict kvs)) :
+    (a.kind = .names → a.attrs ≠ [] → kvs.map Prod.fst = a.attrs) ∧
+    ((a.kind = .none ∨ a.attrs = []) → a.kind ≠ .nonCollection →
+        (kvs.map Prod.fst).Sublist a.allOrder ∧
+        ((∀ n ∈ a.allOrder, a.env.lookup n ≠ some .notimpl) → kvs.map Prod.fst = a.allOrder)) :=
+  ⟨fun hk hne => asDict_keys_explicit cfg cfg_good a st w st' kvs hk hne h,
+   fun himp hnc => ⟨asDict_keys_all cfg cfg_good a st w st' kvs himp hnc h,
+                    fun hni => asDict_keys_all_eq cfg cfg_good a st w st' kvs himp hnc h hni⟩⟩
+
+/-- **as_dict policy.** AccessDenied and ZombieProcess never come out of as_dict (they become
+    ad_value; the full per-name policy — NoSuchProcess propagates, NotImplementedError skipped
+    unless asked for — is the specification's `loopS`, which `C16_value_at_first_read` shows the
+    code follows), and no modelled method raises NotImplementedError. -/
+theorem C16_as_dict_policy (a : AsDictArg) (st : St) (w : World) :
+    (asDict cfg a st w).2 ≠ .raised .accessDenied ∧ (asDict cfg a st w).2 ≠ .raised .zombieProcess :=
+  asDict_never_accessDenied cfg cfg_good a st w
+
+/- =========================================================================================
+   Part 2 — threads: all interleavings of the small-step model
+   ========================================================================================= -/
 end Psutil.C16
+
+namespace Psutil.C16.Conc
+
+/-- what the theorems need of the extracted facts -/
+def CCfg.Good (c : CCfg) : Prop :=
+  c.delGuard = true ∧ c.storeGuard = true ∧ c.storeReloads = false ∧ 1 ≤ c.nAct ∧ 1 ≤ c.nDeact
+
+instance (c : CCfg) : Decidable c.Good := by unfold CCfg.Good; infer_instance
+
+theorem ccfg_good : ccfgFront.Good ∧ ccfgProc.Good := by decide
+
+/-- **no spurious error.** In every state reachable under ANY interleaving of any number of
+    threads (plain callers, block owners contending for the lock) and any world changes, no
+    thread has let an AttributeError/KeyError escape. -/
+theorem C16_no_spurious_error (c : CCfg) (hd : c.delGuard = true)
+    (hs : c.storeReloads = false ∨ c.storeGuard = true) {s : St} (h : Reach c s) (tid : Nat) :
+    (s.thr tid).pc ≠ .err := by
+  intro he
+  have := (reach_inv h).1.thr tid
+  rw [he] at this
+  simp only [TInv] at this
+  cases this with
+  | inl h1 => rw [hd] at h1; cases h1
+  | inr h2 =>
+    cases hs with
+    | inl h3 => rw [h3] at h2; cases h2.1
+    | inr h3 => rw [h3] at h2; cases h2.2
+
+theorem C16_no_spurious_error_front {s : St} (h : Reach ccfgFront s) (tid : Nat) : (s.thr tid).pc ≠ .err :=
+  C16_no_spurious_error _ ccfg_good.1.1 (Or.inr ccfg_good.1.2.1) h tid
+
+theorem C16_no_spurious_error_proc {s : St} (h : Reach ccfgProc s) (tid : Nat) : (s.thr tid).pc ≠ .err :=
+  C16_no_spurious_error _ ccfg_good.2.1 (Or.inr ccfg_good.2.2.1) h tid
+
+/-- the pre-#1948 wrapper (store not guarded): a plain call racing with a block exit lets an
+    AttributeError escape -/
+def cfgNoGuard : CCfg := ⟨3, 3, true, false, true⟩
+def stp (t : Nat) : Action := .thr t .step
+def blockIn (t : Nat) : List Action := [.thr t .acquire, stp t, stp t, stp t, stp t, stp t]
+def blockOut (t : Nat) : List Action := [.thr t .beginExit, stp t, stp t, stp t, stp t, stp t]
+def raceActs : List Action := blockIn 0 ++ [.thr 1 (.call 0), stp 1, stp 1, stp 1] ++ blockOut 0 ++ [stp 1]
+
+theorem C16_issue1948_needs_guard : ∃ s, Reach cfgNoGuard s ∧ (s.thr 1).pc = .err :=
+  ⟨runD cfgNoGuard St.init raceActs, reach_runD raceActs Reach.init, by decide⟩
+
+/-- **valid at some moment (interval form).** When a call returns, the value is what its source
+    held at an instant `t ≤ now` with either `t` inside the call (`cs ≤ t`: it was computed during
+    the call) or the value came out of a dict that was the object's `_cache` at an instant `t0` of
+    the call and `t` is not older than that dict, i.e. than the activation of the block whose
+    cache served it. Holds under every interleaving, for any number of threads and calls. -/
+theorem C16_value_valid_at_some_moment (c : CCfg) (hr : c.storeReloads = false) {s : St}
+    (h : Reach c s) (tid f cs : Nat) (e : Entry) (how : How) (hpc : (s.thr tid).pc = .ret f cs e how) :
+    IntervalForm s f cs e how := by
+  have hT := (reach_inv h).1.thr tid
+  rw [hpc] at hT
+  simp only [TInv] at hT
+  obtain ⟨⟨h1, h2⟩, h3⟩ := hT
+  refine ⟨e.tr, h1, h2, ?_⟩
+  cases how with
+  | computed => exact Or.inl h3
+  | hit d t0 =>
+    obtain ⟨a, b, _, d', e'⟩ := h3
+    exact Or.inr ⟨d, t0, rfl, a, b, d', e' hr⟩
+
+theorem C16_value_valid_front {s : St} (h : Reach ccfgFront s) (tid f cs : Nat) (e : Entry) (how : How)
+    (hpc : (s.thr tid).pc = .ret f cs e how) : IntervalForm s f cs e how :=
+  C16_value_valid_at_some_moment _ ccfg_good.1.2.2.1 h tid f cs e how hpc
+
+theorem C16_value_valid_proc {s : St} (h : Reach ccfgProc s) (tid f cs : Nat) (e : Entry) (how : How)
+    (hpc : (s.thr tid).pc = .ret f cs e how) : IntervalForm s f cs e how :=
+  C16_value_valid_at_some_moment _ ccfg_good.2.2.2.1 h tid f cs e how hpc
+
+/-- whatever the wrapper's shape: a returned value is a content the source really had, not
+    later than the return, and a value computed by the call itself was read during the call -/
+theorem C16_value_valid_weak (c : CCfg) {s : St} (h : Reach c s) (tid f cs : Nat) (e : Entry) (how : How)
+    (hpc : (s.thr tid).pc = .ret f cs e how) :
+    ∃ t, t ≤ s.now ∧ s.hist t f = e.val ∧ (how = .computed → cs ≤ t) := by
+  have hT := (reach_inv h).1.thr tid
+  rw [hpc] at hT
+  simp only [TInv] at hT
+  obtain ⟨⟨h1, h2⟩, h3⟩ := hT
+  refine ⟨e.tr, h1, h2, fun hc => ?_⟩
+  subst hc
+  exact h3
+
+/-- the wrapper before the repair (case-3 store through a re-loaded `self._cache`) and after -/
+def cfgReload : CCfg := ⟨3, 3, true, true, true⟩
+def cfgFixed : CCfg := ⟨3, 3, false, true, true⟩
+
+/-- thread 1's call straddles two blocks of thread 0: it looks up block 1's dict, reads, and
+    stores into block 2's dict; thread 0 then hits that value inside block 2 -/
+def staleActs : List Action :=
+  blockIn 0 ++ [.thr 1 (.call 0), stp 1, stp 1, stp 1] ++ blockOut 0 ++ [.setVer 0 7] ++ blockIn 0 ++
+  [stp 1, stp 1, stp 1, .thr 0 (.call 0), stp 0, stp 0]
+
+/-- the interval form as a statement about a configuration -/
+def C16_IntervalStatement (c : CCfg) : Prop :=
+  ∀ (s : St) (tid f cs : Nat) (e : Entry) (how : How), Reach c s →
+    (s.thr tid).pc = .ret f cs e how → IntervalForm s f cs e how
+
+/-- with the re-loading store the interval form FAILS: inside its second block thread 0 is
+    handed a content that `stat` had only before that block was entered -/
+theorem C16_interval_needs_same_dict_store : ¬ C16_IntervalStatement cfgReload := by
+  intro h
+  have h1 := h (runD cfgReload St.init staleActs) 0 0 26 ⟨0, 9⟩ (.hit 5 27)
+    (reach_runD staleActs Reach.init) (by decide)
+  have h2 := intervalOK_of h1
+  revert h2
+  decide
+
+/-- after the repair the same schedule is harmless (thread 0 reads afresh) -/
+example : ((runD cfgFixed St.init staleActs).thr 0).pc = .w2 0 25 (some (5, 26)) := by decide
+
+/-- the literal cross-thread clause: valid at some moment of the call itself -/
+def C16_value_valid_Literal (c : CCfg) : Prop :=
+  ∀ (s : St) (tid f cs : Nat) (e : Entry) (how : How), Reach c s →
+    (s.thr tid).pc = .ret f cs e how → LiteralForm s f cs e
+
+/-- thread 0 caches content 5 inside its block; the content changes; thread 1 starts a call and
+    hits the cached 5 -/
+def hitActs : List Action :=
+  blockIn 0 ++ [.setVer 0 5, .thr 0 (.call 0), stp 0, stp 0, stp 0, stp 0, stp 0, .setVer 0 6,
+                .thr 1 (.call 0), stp 1, stp 1]
+
+/-- the literal form is false of oneshot's design (the cache is shared between threads), before
+    and after the repair: a plain call that HITS returns what the source held when the block
+    owner read it, possibly before the plain call began -/
+theorem C16_literal_counterexample : ¬ C16_value_valid_Literal cfgFixed ∧ ¬ C16_value_valid_Literal cfgReload := by
+  constructor
+  · intro h
+    have h1 := h (runD cfgFixed St.init hitActs) 1 0 14 ⟨5, 10⟩ (.hit 2 15)
+      (reach_runD hitActs Reach.init) (by decide)
+    have h2 := literalOK_of h1
+    revert h2
+    decide
+  · intro h
+    have h1 := h (runD cfgReload St.init hitActs) 1 0 14 ⟨5, 10⟩ (.hit 2 15)
+      (reach_runD hitActs Reach.init) (by decide)
+    have h2 := literalOK_of h1
+    revert h2
+    decide
+
+/-- for a call that MISSES (computes), the literal form does hold, under every interleaving -/
+theorem C16_value_valid_literal_for_misses (c : CCfg) {s : St} (h : Reach c s) (tid f cs : Nat) (e : Entry)
+    (hpc : (s.thr tid).pc = .ret f cs e .computed) : LiteralForm s f cs e := by
+  obtain ⟨t, h1, h2, h3⟩ := C16_value_valid_weak c h tid f cs e .computed hpc
+  exact ⟨t, h3 rfl, h1, h2⟩
+
+end Psutil.C16.Conc
